@@ -464,7 +464,20 @@ def run_C20(ctx):
         samples=samples + exec_samples, exhaustive=not dl, oracle_checks=tot["checks"], exec_cases=execs, runs=per_run)
     return dict(coverage=cov, assumptions=COMMON_ASSUME[:1] + ["boolean substrings (e.g. 'E' parses as true through strstr) and leading blanks accepted by strtol are outside the claim", "values longer than 64 characters are truncated by the option buffer: only safety is checked for them"], violations=viol, infra=infra)
 
+def run_C17(ctx):
+    q = ctx.quick
+    pr = [] if q else ["--prune"]
+    plan = [("sec", "P9s", "S0", 5 if q else 7, pr, {}), ("dbg", "P9s", "S0", 5 if q else 7, pr, {}), ("sec", "P9s", "S1", 4 if q else 5, pr, {}), ("dbg", "P9s", "S1", 4 if q else 5, pr, {}),
+            ("sec", "P9s", "S4", 4 if q else 5, pr, {}), ("sec", "P1", "S0", 4 if q else 6, pr, {})]
+    return seq_property(ctx, plan,
+        rule="hardened builds (MI_SECURE=4 decides 'stays usable'; MI_DEBUG=3 the reports only), error callback registered: all sequences over {malloc(8000), malloc(100), fill(8 x 8000 = one page), free(i)} plus the three faults at every position the history allows: double_free(j) = second free of any of the six most recently released blocks that is still free while its page holds another live block (expected: exactly one EAGAIN and an unchanged allocator fingerprint); overflow_then_free(i) = one foreign byte at p[requested] of a block with slack, then free (expected: EFAULT); forge_link(j, target) = the free-list link of a released block overwritten with the encoding of an address outside its page (another segment, or a live block of another page) (expected: EFAULT when the allocator reaches it instead of following it). In the secure build exploration continues afterwards under the C01 oracle (no overlap, contents, accessibility) and every live block must lie in a heap region; in the debug build the branch ends after the first report.",
+        assumptions=COMMON_ASSUME + ["forged values that decode into the same page, and a second free after the whole page was released, are outside the claim and not generated"])
+
 PROPS = {
+    "C17": dict(level="model_checking", run=run_C17, replay=replay_file, engine="seq-explorer",
+        technique="bounded exhaustive exploration of operation sequences with injected program faults (double free, one-byte overflow, forged free-list link) at every position, on the hardened builds of the real allocator",
+        text="Every sequence of the alphabet including the fault operations up to depth D runs on the MI_SECURE=4 and MI_DEBUG=3 builds; the expected error code must be reported at the expected call and the secure build must remain consistent afterwards.",
+        note="trusted: harness model; the harness reads the page keys to forge an out-of-page link"),
     "C20": dict(level="exploration", run=run_C20, replay=replay_file, engine="seq-explorer",
         technique="exhaustive enumeration of option indices x value forms, buffer sizes x format grammar, and JSON buffer sizes on the compiled code (also under AddressSanitizer) against a reference parser and guard-page placed buffers",
         text="All option/value forms of the grammar, all destination sizes 0..80 for every generated format and all JSON buffer sizes are enumerated; exhaustive over the stated finite domains.",
